@@ -158,6 +158,21 @@ Theorem C06_no_panic_cursor_copy_to_slice : forall k c, cur_inv c -> k <= len (c
              cur_view c' = skipn (N.to_nat k) (cur_view c) /\ cur_position c' = cur_position c + k.
 Proof. exact cur_copy_to_slice_law. Qed.
 
+(* chunking independence of the varint reader as a THEOREM about the cursor: VarInt::decode run on a Cursor
+   (has_remaining / get_u8 / remaining / copy_to_slice) gives the result of VarInt::decode on the flat unread
+   bytes, leaves the flat rest as the cursor's view and moves position() by the bytes consumed - for every
+   chunking of the BufList; together with C06_no_panic_varint it never panics *)
+Theorem C06_cursor_varint_is_flat_varint : forall c, cur_inv c -> wf_bytes (cur_view c) ->
+  fst (cur_vi_decode c) = fst (vi_decode (cur_view c)) /\
+  cur_inv (snd (cur_vi_decode c)) /\
+  cur_view (snd (cur_vi_decode c)) = snd (vi_decode (cur_view c)) /\
+  cur_position (snd (cur_vi_decode c)) = cur_position c + (len (cur_view c) - len (snd (vi_decode (cur_view c)))).
+Proof. exact cur_vi_decode_flat. Qed.
+
+Example C06_cursor_varint_inhabited :
+  fst (cur_vi_decode (cur_new [[64]; [5; 9]])) = Ok 5 /\ fst (cur_vi_decode (cur_new [[64]])) = Err 1.
+Proof. vm_compute. split; reflexivity. Qed.
+
 Example C06_cursor_inhabited :
   exists c', cur_copy_to_slice 3 (cur_new [[1]; [2; 3]; [4]]) = Ok ([1; 2; 3], c') /\ cur_chunk c' = Ok [4] /\ cur_position c' = 3.
 Proof. eexists. vm_compute. repeat split. Qed.
@@ -213,6 +228,31 @@ Example C06_progress_inhabited :
   = [ONext (Ready (Ok (Some (FData 4)))); OData (Ready (Ok (Some [97; 98]))); OData Pending; OData (Ready (Err FsUnexpectedEnd))].
 Proof. vm_compute. reflexivity. Qed.
 
+(* ---- progress facts of the connection-level models, re-exported from their owners (imports placed here so that
+   their vocabulary - run, cell, obs ... - does not shadow the frame-layer names used above) ---- *)
+From H3V Require Import Gen.GenSharedErr Spec.FirstErrorWins Model.SharedErr Model.SharedErrRun Proofs.SharedErrLemmas Proofs.SharedErrProofs.
+
+(* "transport errors wake and terminate pending calls" (shared_state.rs / connection_error_creators.rs, the C05
+   model): in every world reachable by ANY interleaving of the driver and k stream tasks, a parked driver whose
+   connection-error cell is set has been woken once the system is quiescent - no lost wake-up (F12 repaired).
+   Proved by C05. *)
+Theorem C06_progress_driver_woken_on_error :
+  forall k w, reachable gen_cfg k w -> cell w <> None -> dprog w = [] -> parked w = true ->
+    quiescent w -> woken w = true.
+Proof. exact (fun k w => parked_driver_woken gen_cfg k w gen_facts_ok). Qed.
+
+From H3V Require Import Gen.GenStreamFaults Spec.StreamScoped Model.StreamFaults Proofs.StreamFaultsLemmas Proofs.StreamFaultsProofs.
+
+(* every request whose peer script is a healthy message or a healthy prefix hit by one stream-scoped fault
+   (FIN early, RESET, STOP_SENDING, malformed message, oversized header ...) completes with a value or an error
+   once the peer's events have all arrived and its task is polled, whatever the other requests and the driver
+   did before, in any interleaving.  Proved by C07 over Model/StreamFaults.v. *)
+Theorem C06_progress_requests_complete :
+  forall l stops L G sched j c S,
+    in_class l -> Forall (action_ok stops L G) sched -> nth_error l j = Some (c, S) ->
+    exists r, nth_error (reqs (run (sched ++ completion j (length S)) (init_world l))) j = Some r /\ res r <> None.
+Proof. exact completes. Qed.
+
 Print Assumptions C06_panic_sites_all_reviewed.
 Print Assumptions C06_panic_review_no_duplicate_rows.
 Print Assumptions C06_terminal_is_sticky.
@@ -236,9 +276,12 @@ Print Assumptions C06_no_panic_cursor_advance.
 Print Assumptions C06_cursor_advance_past_end_is_the_assert.
 Print Assumptions C06_no_panic_cursor_get_u8.
 Print Assumptions C06_no_panic_cursor_copy_to_slice.
+Print Assumptions C06_cursor_varint_is_flat_varint.
 Print Assumptions C06_no_panic_frame_stream.
 Print Assumptions C06_no_panic_accept_recv.
 Print Assumptions C06_progress_accept_recv.
+Print Assumptions C06_progress_driver_woken_on_error.
+Print Assumptions C06_progress_requests_complete.
 Print Assumptions C06_progress_frame_stream_next.
 Print Assumptions C06_progress_frame_stream_data.
 Print Assumptions C06_progress_frame_stream_all_histories.
